@@ -34,7 +34,7 @@ LEVEL_TEXT = (
 LEVEL_NOTE = "Trusted: Python float modulo (exact on the lattice), fractions for the width/representability decision off-lattice."
 TECHNIQUE = "runtime postcondition monitor with an exact modular-arithmetic oracle plus verde.inside applied to the returned values; exhaustive 5-degree lattice + seeded off-lattice and rejection workload"
 FLOORS = {
-    "quick": {"eval:region": 12000, "eval:longitudes": 12000, "eval:inside": 12000, "eval:rejection": 300, "distinct_nontrivial": 2500, "eval:forms": 40, "class:longitude_subset_calls": 8000, "class:mixed_dtype_coordinates": 40, "class:point_spelling_python": 150, "class:point_spelling_zero_d": 150},
+    "quick": {"eval:region": 12000, "eval:longitudes": 12000, "eval:inside": 12000, "eval:rejection": 300, "distinct_nontrivial": 2500, "eval:forms": 40, "class:longitude_subset_calls": 8000, "class:mixed_dtype_coordinates": 40, "class:point_spelling_python": 150, "class:point_spelling_zero_d": 150, "class:invalid_value_among_undefined": 15},
     "thorough": {"eval:region": 40000, "eval:longitudes": 40000, "eval:inside": 40000, "eval:rejection": 3000, "distinct_nontrivial": 20000},
 }
 JOBS = {"quick": 1, "thorough": 16}
@@ -91,7 +91,11 @@ def install(tap, run):
         if has_coords:
             lon_in = np.asarray(coords[0], dtype="float64")
             lat_in = np.asarray(coords[1], dtype="float64")
-            valid_coords = bool(np.all((lon_in >= -180) & (lon_in <= 360)) and np.all((lat_in >= -90) & (lat_in <= 90)))
+            # a value outside the ranges makes the call invalid whatever else the arrays hold (NaN is neither in nor out of range)
+            valid_coords = not bool(np.any(lon_in > 360) or np.any(lon_in < -180) or np.any(lat_in > 90) or np.any(lat_in < -90))
+            if valid_coords and valid and (np.isnan(lon_in).any() or np.isnan(lat_in).any()):
+                run.count("skipped:undefined_coordinates_in_range_otherwise")  # outside the quantifier (longitude arrays in [-180, 360])
+                return
         else:
             valid_coords = True
         witness = {"region": [w, e, s, n], "coordinates": None if not has_coords else [np.asarray(c) for c in coords]}
@@ -164,7 +168,7 @@ def install(tap, run):
                 problem = "returned region is in the [0, 360] convention but a longitude is outside [0, 360]"
             elif nw < 0 and np.any((lon_out < -180) | (lon_out > 180)):
                 problem = "returned region is in the [-180, 180] convention but a longitude is outside [-180, 180]"
-            elif not np.array_equal(np.asarray(new_coords[1], dtype="float64"), lat_in):
+            elif not np.array_equal(np.asarray(new_coords[1], dtype="float64"), lat_in, equal_nan=True):
                 problem = "latitudes changed"
             else:
                 for k in range(2, len(coords)):
@@ -275,9 +279,9 @@ def run_case(run, tap, stream, index, rng):
     elif stream == "invalid":
         good_lon, good_lat = np.array([0.0, 10.0, 350.0]), np.array([-10.0, 0.0, 10.0])
         for _ in range(12):
-            kind = int(rng.integers(0, 13))
+            kind = int(rng.integers(0, 15))
             region = [10.0, 50.0, -20.0, 20.0]
-            if kind in (5, 6):  # invalid coordinates are refused whatever the (valid) region: global, crossing, narrow
+            if kind in (5, 6, 13, 14):  # invalid coordinates are refused whatever the (valid) region: global, crossing, narrow
                 region = [[10.0, 50.0, -20.0, 20.0], [0.0, 360.0, -90.0, 90.0], [-180.0, 180.0, -60.0, 60.0], [-35.0, 325.0, -20.0, 20.0],
                           [350.0, 10.0, -5.0, 5.0], [170.0, -170.0, -5.0, 5.0], [0.0, 0.0, 0.0, 0.0]][int(rng.integers(0, 7))]
                 run.count("class:invalid_coordinates_region_%d" % int(abs(region[1] - region[0]) == 360))
@@ -304,15 +308,36 @@ def run_case(run, tap, stream, index, rng):
                 region[0], region[1] = float(360 + rng.uniform(1, 20)), float(360 + rng.uniform(21, 40))
             elif kind == 12:
                 region[0], region[1] = float(-180 - rng.uniform(21, 40)), float(-180 - rng.uniform(1, 20))
-            elif kind == 5:
+            elif kind in (5, 13):
                 lon[int(rng.integers(0, 3))] = float(rng.choice([-180 - rng.uniform(1e-6, 50), 360 + rng.uniform(1e-6, 50)]))
             else:
                 lat[int(rng.integers(0, 3))] = float(rng.choice([-90 - rng.uniform(1e-6, 50), 90 + rng.uniform(1e-6, 50)]))
+            if kind in (13, 14):
+                # the out-of-range value sits in arrays that also have gaps (NaN: blanked nodes, missing stations), before or after it,
+                # in the same or in the other coordinate
+                size = int(rng.choice([4, 9, 40]))
+                bad_lon, bad_lat = lon[np.argmax(np.abs(lon - 90))], lat[np.argmax(np.abs(lat))]
+                lon = np.concatenate([lon, rng.uniform(0, 350, size)])
+                lat = np.concatenate([lat, rng.uniform(-80, 80, size)])
+                perm = rng.permutation(lon.size)
+                lon, lat = lon[perm], lat[perm]
+                gaps = rng.random(lon.size) < rng.choice([0.1, 0.5])
+                gaps[int(rng.integers(0, lon.size))] = True
+                culprit = (lon == bad_lon) if kind == 13 else (lat == bad_lat)
+                gaps &= ~culprit
+                where = int(rng.integers(0, 3))
+                if where in (0, 2):
+                    lon = np.where(gaps, np.nan, lon)
+                if where in (1, 2):
+                    lat = np.where(gaps, np.nan, lat)
+                if rng.random() < 0.3:
+                    lon, lat = lon.reshape(1, -1), lat.reshape(1, -1)
+                run.count("class:invalid_value_among_undefined")
             # every invalid call is made twice, with a valid call in between and in other argument forms: a refusal must not
             # depend on what was asked before (the monitor judges each call on its own)
             forms = [lambda: vd.longitude_continuity(None, region), lambda: vd.longitude_continuity([lon, lat], region),
                      lambda: vd.longitude_continuity((lon, lat), tuple(region)), lambda: vd.longitude_continuity([lon, lat], np.array(region))]
-            if kind in (5, 6):
+            if kind in (5, 6, 13, 14):
                 forms = forms[1:]
             first = forms[int(rng.integers(0, len(forms)))]
             for call in (first, lambda: vd.longitude_continuity([good_lon, good_lat], [10.0, 50.0, -20.0, 20.0]), first, forms[int(rng.integers(0, len(forms)))]):
